@@ -300,7 +300,7 @@ def project(prop, line, o):
         if prop == "C05":
             return (n is not None, resp[8:18] if resp else None)
         if prop == "C02":
-            return (res.startswith("ok"), buf if not res.startswith("ok") else None, eids)
+            return (res.startswith("ok"), buf if res.startswith("err") else None, eids)
         if prop == "C11":
             return (res if not res.startswith("panic") else "panic", buf if not res.startswith("panic") else None)
         if prop == "C12":
@@ -816,7 +816,11 @@ def check_property(prop, tier, seed, max_search=20000):
             continue
         relevant = (prop in iv) or (prop in mv) or kind in ("view", "conv", "new", "hdr", "sweep") or iv.get("*") == "unparsed"
         if kind in ("seteid", "setuuid") and prop != "C13":
-            relevant = False
+            relevant = (kind == "setuuid" and prop == "C15")
+        if (m.split(" ## ")[0] == "bad-op") != (o == "bad-op"):
+            # the two sides of the line protocol disagree on whether the operation is well-formed:
+            # glue mismatch, must not be dropped silently
+            relevant = True
         if not relevant:
             continue
         n_eval += 1
